@@ -165,6 +165,7 @@ def render(am, rng, allow_any=True, allow_split=True, force=None):
     order = list(range(nev))
     rng.shuffle(order)
     p_attr = force.get("p_attr", rng.choice([0.2, 0.5, 0.8, 1.0]))
+    p_ph = rng.choice([0.3, 0.3, 0.9])      # (0.9: several placeholder `Event()` objects on one transition)
     for e in order:
         mine = [t["i"] for t in trans if e in t["events"]]
         if not mine:
@@ -204,7 +205,7 @@ def render(am, rng, allow_any=True, allow_split=True, force=None):
                 elif rng.random() < 0.05:
                     kwev[i].append(e)        # redundant: named by the attribute and by event=
         else:
-            if rng.random() < force.get("p_ph", 0.3):
+            if rng.random() < force.get("p_ph", p_ph):
                 phmode.add(e)
             for i in mine:
                 kwev[i].append(e)
@@ -247,7 +248,7 @@ def render(am, rng, allow_any=True, allow_split=True, force=None):
         evs = list(evs)
         if not evs:
             return []
-        form = rng.choice(["spaced", "list", "objs"]) if len(evs) > 1 else rng.choice(["str", "str", "obj", "list1"])
+        form = rng.choice(["spaced", "list", "objs", "chunks"]) if len(evs) > 1 else rng.choice(["str", "str", "obj", "list1"])
         items = []
         plain = []
         for e in evs:
@@ -260,6 +261,17 @@ def render(am, rng, allow_any=True, allow_split=True, force=None):
         if form == "spaced" and len(plain) > 1:
             items.append(("s", plain))
             tags.add("ev_spaced")
+        elif form == "chunks" and len(plain) > 1:
+            # a list whose items are themselves space-separated designators: event=["go e1", "stop"]
+            rest = list(plain)
+            while rest:
+                k = min(len(rest), rng.choice([1, 2, 2, 3]))
+                chunk, rest = rest[:k], rest[k:]
+                items.append(("s", chunk))
+                if k > 1:
+                    tags.add("ev_spaced")
+            items.append(("s", [plain[0]])) if rng.random() < 0.1 else None      # (a designator named twice)
+            tags.add("ev_chunks")
         else:
             for e in plain:
                 if form in ("objs", "obj") and rng.random() < 0.6:
